@@ -43,7 +43,7 @@ FLOORS = {"histories": (1500, 12000), "uncached_evaluations_exact": (4000, 50000
           "selected_registered_impl": (1000, 10000), "late_registrations_effective": (800, 6000), "interface_member_evaluations": (15000, 50000),
           "rejected_implementations": (2000, 3000)}
 SHARDS_QUICK = 4
-ALIASES = ["x", "y", "z", 0, 1, None, "a"]
+ALIASES = ["x", "y", "z", 0, 1, None, "a", {"tuple": ["ds1", "default"]}, {"tuple": ["t", 1]}]
 
 
 def gen_history(r):
@@ -59,7 +59,9 @@ def gen_history(r):
         elif kind == "opt-default":
             d["dispatch"] = {"k": "opt", "key": r.choice(["D", "E"]), "dk": "const", "dv": r.choice(ALIASES[:3])}
         elif kind == "dataset" and i > 1:
-            d["dispatch"] = {"k": "apply", "src": {"k": "ds", "id": str(r.randrange(1, i))}, "fn": "tostr", "n": g.nid()}
+            src = {"k": "ds", "id": str(r.randrange(1, i))}
+            # either the dataset's tuple value itself (tuple aliases) or its string form
+            d["dispatch"] = src if r.random() < 0.5 else {"k": "apply", "src": src, "fn": "tostr", "n": g.nid()}
         elif kind == "late":
             d["dispatch"] = None
             d["late_dispatch"] = r.choice(["D", "E"])
@@ -78,7 +80,7 @@ def gen_history(r):
     pending = {did: d.pop("late_dispatch") for did, d in datasets.items() if "late_dispatch" in d}
     for did, key in pending.items():
         # registrations made before the dispatch exists must survive set_dispatch
-        for a in r.sample(ALIASES, r.choice([0, 1, 2])):
+        for a in r.sample(ALIASES[:7], r.choice([0, 1, 2])):
             used[did].add(repr(a))
             ops.append(["register", did, a, {"expr": g.opt(0)}, False])
         if r.random() < 0.5:
@@ -112,9 +114,9 @@ def gen_history(r):
         else:
             o = U.random_options(r, p_present=0.7, templated=0.05, closed_only=True)
             if r.random() < 0.8:
-                o["D"] = r.choice(ALIASES)
+                o["D"] = r.choice(ALIASES[:7])
             if r.random() < 0.5:
-                o["E"] = r.choice(ALIASES)
+                o["E"] = r.choice(ALIASES[:7])
             ops.append(["eval", did, o, r.random() < 0.5, r.random() < 0.15])
     return {"datasets": datasets, "ops": ops}
 
@@ -146,8 +148,10 @@ def run_history(ctx, H, tag):
                 tagname = impl["tag"]
                 body = G._body(did, tagname, impl.get("args", []))
                 obj = G.dataset(did)
-                inner = obj.overload(alias[1])(body)
-                obj.overload(alias[0])(inner)
+                from ..ref import alias_value
+
+                inner = obj.overload(alias_value(alias[1]))(body)
+                obj.overload(alias_value(alias[0]))(inner)
                 G.dataset_ids[id(inner)] = f"{did}/{tagname}"
             else:
                 G.register(did, alias, impl)
